@@ -135,18 +135,14 @@ private theorem completeList_mono (f f' : Path → RVal → R (Data × List Err)
   | cons v rest ih =>
     intro i hfu
     simp only [completeList, bind, Except.bind, pure, Except.pure] at hfu ⊢
-    cases h1 : f (path ++ [Seg.idx i]) v with
-    | error e =>
-      simp only [h1] at hfu
-      rw [hx _ _ (by rw [h1]; exact fcast hfu), h1]
+    have h1 : Fueled (f (path ++ [Seg.idx i]) v) := by intro h; apply hfu; simp [h]
+    rw [hx _ _ h1]
+    cases hf : f (path ++ [Seg.idx i]) v with
+    | error e => rfl
     | ok p1 =>
-      rw [hx _ _ (by rw [h1]; intro h; simp at h), h1]
-      simp only [h1] at hfu ⊢
-      cases h2 : completeList f path (i + 1) rest with
-      | error e =>
-        simp only [h2] at hfu
-        rw [ih (i + 1) (by rw [h2]; exact fcast hfu), h2]
-      | ok p2 => rw [ih (i + 1) (by rw [h2]; intro h; simp at h), h2]
+      simp only [hf] at hfu ⊢
+      have h2 : Fueled (completeList f path (i + 1) rest) := by intro h; apply hfu; simp [h]
+      rw [ih _ h2]
 
 private theorem completeValue_mono (s : SchemaD) (e e' : String → Path → List Sel → R (Data × List Err)) (hx : Extends3 e e')
     (nodes : List FNode) :
@@ -164,6 +160,11 @@ private theorem completeValue_mono (s : SchemaD) (e e' : String → Path → Lis
       | none => rfl
       | some k => cases k <;> simp only [hk] at hfu ⊢ <;> (try rfl) <;> exact hx _ _ _ hfu
     | list vs =>
+      simp only [completeValue] at hfu ⊢
+      cases hk : kindOf s n with
+      | none => rfl
+      | some k => cases k <;> simp only [hk] at hfu ⊢ <;> (try rfl) <;> exact hx _ _ _ hfu
+    | raise vs msg ext =>
       simp only [completeValue] at hfu ⊢
       cases hk : kindOf s n with
       | none => rfl
@@ -188,6 +189,10 @@ private theorem completeValue_mono (s : SchemaD) (e e' : String → Path → Lis
     | null => simp [completeValue]
     | leaf j => cases j <;> simp [completeValue]
     | obj rt => simp [completeValue]
+    | raise vs msg ext =>
+      simp only [completeValue] at hfu ⊢
+      have h1 : Fueled (completeList (completeValue s e nodes t) path 0 vs) := by intro h; apply hfu; simp [h]
+      rw [completeList_mono _ _ (fun p v h => ih p v h) path vs 0 h1]
     | list vs =>
       simp only [completeValue, bind, Except.bind, pure, Except.pure] at hfu ⊢
       cases h1 : completeList (completeValue s e nodes t) path 0 vs with
@@ -249,7 +254,7 @@ private theorem executeGroups_mono (s : SchemaD) (w : World) (e e' : String → 
               · rfl
               · rename_i v hv
                 simp only [hv] at hfr
-                exact completeValue_mono s e e' hx _ fd.type _ v hfr
+                rw [completeValue_mono s e e' hx _ fd.type _ v (by intro h; apply hfr; simp [h])]
           cases hr1 : resolveField s w e parent (path ++ [Seg.key key]) (node :: more) fd with
           | error er =>
             simp only [hr1] at hfu
@@ -275,19 +280,15 @@ theorem exec_fuel_mono (s : SchemaD) (doc : Doc) (vars : Vars) (w : World) :
     | zero => omega
     | succ m =>
       simp only [executeFields, bind, Except.bind, pure, Except.pure] at hfu ⊢
-      cases h1 : collectFields s doc vars cf parent sels [] with
-      | error er =>
-        simp only [h1] at hfu
-        rw [collect_fuel_mono_le s doc vars cf cf' hc parent sels [] (by rw [h1]; exact fcast hfu), h1]
+      have h1 : Fueled (collectFields s doc vars cf parent sels []) := by intro h; apply hfu; simp [h]
+      rw [collect_fuel_mono_le s doc vars cf cf' hc parent sels [] h1]
+      cases hc1 : catchDirective (collectFields s doc vars cf parent sels []) with
+      | error er => rfl
       | ok p1 =>
-        rw [collect_fuel_mono_le s doc vars cf cf' hc parent sels [] (by rw [h1]; intro h; simp at h), h1]
-        simp only [h1] at hfu ⊢
+        simp only [hc1] at hfu ⊢
         have hx : Extends3 (executeFields s doc vars w cf n) (executeFields s doc vars w cf' m) := ih m cf cf' (by omega) hc
-        cases h2 : executeGroups s w (executeFields s doc vars w cf n) parent path p1.1 with
-        | error er =>
-          simp only [h2] at hfu
-          rw [executeGroups_mono s w _ _ hx parent path p1.1 (by rw [h2]; exact fcast hfu), h2]
-        | ok p2 => rw [executeGroups_mono s w _ _ hx parent path p1.1 (by rw [h2]; intro h; simp at h), h2]
+        have h2 : Fueled (executeGroups s w (executeFields s doc vars w cf n) parent path p1.1) := by intro h; apply hfu; simp [h]
+        rw [executeGroups_mono s w _ _ hx parent path p1.1 h2]
 
 /-- a request RESPONDS with `r`: some amounts of fuel produce `r` and `r` is not the out-of-fuel artefact -/
 def RespondsWith (s : SchemaD) (doc : Doc) (vars : Vars) (w : World) (op : Option String) (r : Response) : Prop :=
@@ -315,6 +316,7 @@ theorem response_unique (s : SchemaD) (doc : Doc) (vars : Vars) (w : World) (op 
         simp only [hsub, if_false, Bool.false_eq_true] at e2
         have key : ∀ f c (r : Response), (match executeFields s doc vars w c f root [] o.sels with
             | .ok (d, es) => Response.result d es
+            | .error (.raised k l inner) => Response.result .null (inner ++ [{ path := [], locs := l.getD [], kind := k }])
             | .error f => Response.failed f) = r → r ≠ .failed .outOfFuel →
             Fueled (executeFields s doc vars w c f root [] o.sels) := by
           intro f c r he hn hfu
